@@ -175,6 +175,37 @@ func isPMTSweep(c *mon.Ctx, pat psi.PAT, p *ref.PAT, r *gen.Rand, all bool) {
 func run(c *mon.Ctx) {
 	c.Rule("PAT sections built from ground-truth entries by a reference builder (0..253 entries for the payload carrier, 0..42 for packet/stream carriers; network entries, boundary program numbers and PIDs), each decoded through its carrier. distinct non-trivial = distinct (carrier, entry-count class, has network entry, single-program verdict, padding style, packets before the PAT) with at least one entry")
 	c.Assume("pointer_field is 0 (the statement does not vary it for PAT); payload carriers of exactly 188 bytes are avoided because NewPAT documents that it treats a 188-byte slice as a transport packet; program numbers within one table are distinct")
+	c.Floor("concurrent.calls", 5000)
+	c.Stream("concurrent-decoders", c.N(3, 150), func(i int, r *gen.Rand) {
+		c.Concurrent("psi.NewPAT", 8, 250, r, func(q *gen.Rand) string {
+			p := genPAT(q, 30)
+			pay := q.Slack(append([]byte{0}, p.Section()...))
+			if len(pay) == 188 {
+				pay = append(pay, 0xff)
+			}
+			pat, err := psi.NewPAT(pay)
+			if err != nil || pat == nil {
+				return fmt.Sprintf("a well-formed payload was rejected: %v", err)
+			}
+			want := map[int]int{}
+			for _, e := range p.Entries {
+				if e.Program != 0 {
+					want[int(e.Program)] = e.PID
+				}
+			}
+			m := pat.ProgramMap()
+			if pat.NumPrograms() != len(p.Entries) || len(m) != len(want) {
+				return fmt.Sprintf("NumPrograms()=%d, ProgramMap() has %d entries; the section has %d entries, %d of them programs", pat.NumPrograms(), len(m), len(p.Entries), len(want))
+			}
+			for k, v := range want {
+				if m[k] != v {
+					return fmt.Sprintf("ProgramMap()[%d]=%#x, the section maps it to %#x", k, m[k], v)
+				}
+			}
+			return ""
+		})
+		c.Class("concurrent-decoders")
+	})
 	c.Stream("payload", c.N(12000, 400000), func(i int, r *gen.Rand) {
 		p := genPAT(r, 253)
 		sec := p.Section()
